@@ -378,6 +378,13 @@ fn run_cmp(a: &Args, o: &mut Obs) {
 /// byte string may contain: b" ( printable ASCII except " and \  |  escape )* "
 /// escapes: \n \r \t \\ \0 \" \' \xHH.  Returns None if the text is not a valid literal.
 fn parse_byte_literal(s: &str) -> Option<Vec<u8>> {
+    // The Rust reference grammar of BYTE_STRING_LITERAL:
+    //   b" ( ASCII_FOR_STRING | BYTE_ESCAPE | STRING_CONTINUE )* "
+    //   ASCII_FOR_STRING = any ASCII (0x00..=0x7F) except `"`, `\` and an isolated CR
+    //   BYTE_ESCAPE      = \xHH | \n | \r | \t | \\ | \0 | \' | \"
+    //   STRING_CONTINUE  = `\` followed by LF: the LF and all following ' ', \t, \n, \r are skipped
+    // (rustc normalises CR LF to LF before lexing, so a raw CR LF denotes LF). Raw control characters other than an
+    // isolated CR are therefore legal and denote themselves; non-ASCII bytes are not.
     let b = s.as_bytes();
     if b.len() < 3 || b[0] != b'b' || b[1] != b'"' || b[b.len() - 1] != b'"' {
         return None;
@@ -411,17 +418,33 @@ fn parse_byte_literal(s: &str) -> Option<Vec<u8>> {
                     out.push(hv(h[0])? * 16 + hv(h[1])?);
                     i += 2;
                 }
+                b'\n' | b'\r' => {
+                    // line continuation (`\` CR LF counts after normalisation; `\` + isolated CR does not)
+                    if e == b'\r' && body.get(i + 1) != Some(&b'\n') {
+                        return None;
+                    }
+                    while i < body.len() && matches!(body[i], b' ' | b'\t' | b'\n' | b'\r') {
+                        i += 1;
+                    }
+                    continue;
+                }
                 _ => return None,
             }
             i += 1;
         } else if c == b'"' {
             return None; // unescaped quote inside the literal
-        } else if (0x20..0x7f).contains(&c) {
+        } else if c == b'\r' {
+            if body.get(i + 1) == Some(&b'\n') {
+                out.push(b'\n');
+                i += 2;
+            } else {
+                return None; // isolated CR
+            }
+        } else if c < 0x80 {
             out.push(c);
             i += 1;
         } else {
-            // raw control characters (a bare CR is rejected by rustc) and non-ASCII are not allowed
-            return None;
+            return None; // non-ASCII is not allowed in a byte string literal
         }
     }
     Some(out)
@@ -498,11 +521,24 @@ fn fmt_one(o: &mut Obs, x: &[u8], rep: usize, case: &str) {
         }
     }
     // alternate / padded formatting flags must not change the digits
-    if x.len() <= 2 {
-        let alt = format!("{:#?}", b);
+    {
+        #[derive(Debug)]
+        #[allow(dead_code)]
+        struct WrapM {
+            m: BytesMut,
+        }
+        for (ty, alt) in [("Bytes", format!("{:#?}", b)), ("BytesMut", format!("{:#?}", m))] {
+            o.add("formatted", 1);
+            if parse_byte_literal(&alt).as_deref() != Some(x) {
+                o.viol("C15", &format!("debug-alternate:{ty}"), case, &format!("{{:#?}} of {:?} printed {}", x, alt));
+            }
+        }
+        // pretty-printed derived struct: `WrapM {\n    m: b"...",\n}`
+        let outer = format!("{:#?}", WrapM { m: m.clone() });
         o.add("formatted", 1);
-        if parse_byte_literal(&alt).as_deref() != Some(x) {
-            o.viol("C15", "debug-alternate", case, &format!("{{:#?}} of {:?} printed {}", x, alt));
+        let inner = outer.strip_prefix("WrapM {\n    m: ").and_then(|r| r.strip_suffix(",\n}"));
+        if inner.and_then(parse_byte_literal).as_deref() != Some(x) {
+            o.viol("C15", "debug-alternate-inside-derived-struct", case, &format!("{{:#?}} of a struct holding {:?} printed {outer}", x));
         }
     }
     for &c in x {
@@ -554,8 +590,11 @@ fn run_fmt(a: &Args, o: &mut Obs) {
     }
     let mut r = Rng::new(mix2(seed, shard as u64 + 5));
     for k in 0..nrand {
-        let n = 3 + r.below(60);
-        let x: Vec<u8> = (0..n).map(|_| if r.chance(1, 3) { *r.pick(&[0u8, b'0', b'7', b'\\', b'"', b'\'', b'\n', b'\r', b'\t', 0x7f, 0x80, 0xff, b'x', b'b']) } else { r.byte() }).collect();
+        // every 4th string is long (beyond 64 / 128 / 256 bytes, lengths at and around those marks) and rich in
+        // spaces and printable bytes, so that any chunking / wrapping of the output is exercised
+        let long = k % 4 == 3;
+        let n = if long { *r.pick(&[63usize, 64, 65, 100, 127, 128, 129, 200, 255, 256, 257, 600]) + r.below(3) } else { 3 + r.below(60) };
+        let x: Vec<u8> = (0..n).map(|i| if long && (i % 64 == 0 || r.chance(1, 4)) { *r.pick(&[b' ', b' ', b'a', b'\t', b'Z', b'~']) } else if r.chance(1, 3) { *r.pick(&[0u8, b'0', b'7', b'\\', b'"', b'\'', b'\n', b'\r', b'\t', 0x7f, 0x80, 0xff, b'x', b'b']) } else { r.byte() }).collect();
         fmt_one(o, &x, r.below(NB), &format!("tbl:fmt:rnd:{seed}:{shard}:{k}"));
         o.inc("strings");
         if k == 0 {
